@@ -76,7 +76,8 @@ def static_case(rnd, M):
         cols.append(numpy.asarray(mass.generate_momentum(), dtype=float).reshape(d))
     A = numpy.array(cols).T
     tol = (1e-4 if "Full" in desc else 1e-5) if "float32" in desc else 1e-9     # float32 input: working precision of the given data
-    if not numpy.allclose(A @ A.T, matrix, rtol=tol, atol=1e-12):
+    # (entries compared against the size of the matrix: an exact zero next to entries of 1e9 is reproduced up to rounding of those)
+    if not (numpy.allclose(A @ A.T, matrix, rtol=tol, atol=1e-12) or float(numpy.max(numpy.abs(A @ A.T - matrix))) <= tol * float(numpy.max(numpy.abs(matrix)))):
         out.append((f"factor-{kind}", f"{desc}: generate_momentum() = A z with A A^T = {(A @ A.T).tolist()} but the reported matrix is {matrix.tolist()}"))
     p = [dy(rnd, -3, 3) for _ in range(d)]
     pa = numpy.array(p, dtype=float).reshape(-1, 1)
